@@ -211,6 +211,32 @@ fn clause_version_other<const N: usize>() {
     }
 }
 
+/// `Decoder::curr_line` hands out the raw line with TRAILING white space removed and nothing
+/// else touched (leading white space is significant: an indented header is not a header).
+fn clause_curr_line<const N: usize>() {
+    use rosu_map::verif_hooks::Decoder;
+    let mut buf = [0u8; N];
+    let line = any_ascii_line_exact(&mut buf);
+    let empty: &[u8] = &[];
+    let mut dec = Decoder::new(empty).unwrap();
+    dec.verif_set_read_buf(line.as_bytes());
+    let got = dec.curr_line().as_bytes();
+    // reference: drop trailing ASCII white space only
+    let mut end = N;
+    while end > 0 && rf::is_ascii_ws(buf[end - 1]) {
+        end -= 1;
+    }
+    assert!(got.len() == end);
+    let mut i = 0;
+    while i < end {
+        assert!(got[i] == buf[i]);
+        i += 1;
+    }
+    kani::cover!(end < N, "trailing white space (e.g. CR) removed");
+    kani::cover!(end > 0 && rf::is_ascii_ws(buf[0]), "leading white space kept");
+    core::mem::forget(dec);
+}
+
 macro_rules! c05 {
     ($name:ident, $unwind:expr, $body:expr) => {
         #[kani::proof]
@@ -250,6 +276,16 @@ c05!(c05_version_other0, 20, clause_version_other::<0>());
 c05!(c05_version_other3, 20, clause_version_other::<3>());
 // @verif property=C05 tier=thorough timeout=1200 bounds="try_version_from_line on every 17-byte ASCII line (length of the prefix: exactly one of them is the prefix)" covers=1
 c05!(c05_version_other17, 20, clause_version_other17());
+
+// @verif property=C05 tier=quick timeout=900 mem=16 bounds="Decoder::curr_line (UTF-8) on every ASCII raw line of exactly 4 bytes; from_utf8 replaced by its valid-input model"
+#[kani::proof]
+#[kani::unwind(8)]
+#[kani::stub(core::slice::memchr::memchr, stubs::memchr_model)]
+#[kani::stub(core::slice::memchr::memrchr, stubs::memrchr_model)]
+#[kani::stub(core::str::converts::from_utf8, stubs::from_utf8_valid_only)]
+fn c05_curr_line4() {
+    clause_curr_line::<4>();
+}
 
 // Vacuity twin.
 // @verif property=C05 tier=thorough expect=fail timeout=900 bounds="vacuity twin of c05_section_ascii14"
